@@ -22,6 +22,12 @@ checks = {
  "C16": ("exploration", "small-scope exhaustive enumeration of lazy/strict signatures x usages x call routes, differential against a reference evaluator (memoised thunks over the caller's scope)",
          "all 28 signatures of 1..3 strict/lazy parameters (with/without variadic tail) x all assignments of 7 usages to the lazy ones x 9 call routes x failing/zero/normal argument choices x 0..2 variadic extras; count and order of argument evaluations (host-call trace), values and errors must equal R1's",
          "trusts R1's thunk model; typed func declarations are not generated; bounded to 3 parameters", "§3 C16"),
+ "C13": ("fault_enumeration", "exhaustive enumeration of cut points (where the input stream ends and the parser has to pause) over corpus + generated texts, plus explicit-state BFS over parse histories keyed by the lexer residue",
+         "for the 110 corpus scripts, a hand list and every string of <=3 (thorough 4) tokens over a 40-token alphabet: whole parse vs parse with trailing newline, pause-iff-unfinished against an independent prefix scanner, every 1-cut and (short texts) every 2-cut delivered with the REPL pause protocol; BFS over histories of 18 residue-leaving inputs (depth 3/4) with 10 probe texts compared with a fresh interpreter",
+         "trusts the prefix scanner R8 and the whole-text parse as reference; cuts are rune-aligned; more than two cuts are not explored", "§3 C13"),
+ "C05": ("fault_enumeration", "deviation-bounded exploration of fault points (k-th host call fails, by error or by panic) over enumerated programs, oracle = reference evaluator run with the same fault",
+         "every program of the C02 grammar (depth-1 full, chains of length 2) plus lazy/deep/tail/loop contexts: default run counts the host calls N, then each k<=N x {error, panic} re-runs on a fresh interpreter; result, trace, stacks at rest and a 17-item follow-up battery must equal the reference evaluator's after the same fault (thorough: + a second fault during the follow-ups); 14 malformed forms in every hole of every context and 8 unparsable texts must yield errors and leave the interpreter usable",
+         "trusts R1's treatment of a fault (global effects before the fault persist); single fault per program run (thorough: two)", "§3 C05"),
 }
 all_ids = ["C%02d" % i for i in range(1, 21)]
 pending = {i: "check not built yet in this tree (see DESIGN.md §7 build order); will be claimed when its machinery lands" for i in all_ids if i not in checks}
